@@ -9,6 +9,7 @@ mod core;
 mod cont;
 mod confine;
 mod csweep;
+mod deepchain;
 mod docsweep;
 mod drops;
 mod flatfmt;
